@@ -308,15 +308,13 @@ def obligations(tier):
         plan.append(("base-new", "instantiate", "instantiate", core))
     else:
         for shape in SHAPES:
-            for fa, fb in four:
+            for fa, fb in four if shape in ("attrs", "lazy-parent") else (("instantiate", "instantiate"), ("metadata", "instantiate")):
                 plan.append((shape, fa, fb, core))
-        for fa in TRIGGERS:
-            for fb in TRIGGERS:
-                if (fa, fb) not in four:
-                    plan.append(("lazy-parent", fa, fb, core))
-        for shape in ("attrs", "lazy-parent"):
-            for fa, fb in (("instantiate", "instantiate"), ("instantiate", "metadata"), ("metadata", "instantiate")):
-                plan.append((shape, fa, fb, None))
+        # (sizing: all 16 trigger pairs for lazy-parent and all-statement shards for two shapes ran past 90 minutes)
+        for fa, fb in (("instantiate", "subclass"), ("subclass", "instantiate"), ("fields", "instantiate"), ("instantiate", "fields")):
+            plan.append(("lazy-parent", fa, fb, core))
+        for fa, fb in (("instantiate", "instantiate"), ("instantiate", "metadata"), ("metadata", "instantiate")):
+            plan.append(("lazy-parent", fa, fb, None))
         width = 110
     for shape, fa, fb, only in plan:
         # the preemption index ranges over every statement the triggering access executes (measured on the current
